@@ -26,6 +26,10 @@ import (
 type Prog struct {
 	Defs string
 	Run  string
+	// GoMain: Go top-level declarations of this program for package main (client code);
+	// GoPkg: Go top-level declarations for sub-packages (name -> code).
+	GoMain string
+	GoPkg  map[string]string
 }
 
 // Result of one program.
@@ -44,6 +48,10 @@ type Env struct {
 	FCArgs    []string // arguments before the source file (e.g. pkg_all.foi)
 	Prelude   string   // package clause, imports, shared definitions
 	ExtraGo   map[string]string
+	// GoMainHeader starts client.go (package clause and imports) when programs carry GoMain code;
+	// GoPkgHeader starts each sub-package file (always written).
+	GoMainHeader string
+	GoPkgHeader  map[string]string
 	Builds    *int64 // optional counters
 	NoRunMain bool
 	// OnGen, if set, receives the emitted gen_t.go of every successful transpiler run.
@@ -185,7 +193,34 @@ func (e *Env) run(all []Prog, idx []int, res []Result) {
 		}
 	}
 	os.WriteFile(filepath.Join(dir, "guard.go"), []byte(guardGo), 0o644)
+	extra := map[string]string{}
 	for n, c := range e.ExtraGo {
+		extra[n] = c
+	}
+	// per-program Go code: only that of the programs in this run
+	for _, p := range progs {
+		if p.GoMain != "" {
+			if _, ok := extra["client.go"]; !ok {
+				extra["client.go"] = e.GoMainHeader
+			}
+			extra["client.go"] += p.GoMain + "\n"
+		}
+		for pkg, code := range p.GoPkg {
+			fn := pkg + "/" + pkg + ".go"
+			if _, ok := extra[fn]; !ok {
+				extra[fn] = e.GoPkgHeader[pkg]
+			}
+			extra[fn] += code + "\n"
+		}
+	}
+	for pkg, h := range e.GoPkgHeader {
+		fn := pkg + "/" + pkg + ".go"
+		if _, ok := extra[fn]; !ok {
+			extra[fn] = h
+		}
+	}
+	for n, c := range extra {
+		os.MkdirAll(filepath.Dir(filepath.Join(dir, n)), 0o755)
 		os.WriteFile(filepath.Join(dir, n), []byte(c), 0o644)
 	}
 	if err := e.Sc.GoModule(dir, "vprog"); err != nil {
@@ -198,6 +233,9 @@ func (e *Env) run(all []Prog, idx []int, res []Result) {
 			return
 		}
 		off := locateGoErrors(filepath.Join(dir, "gen_t.go"), out, progs)
+		for k, v := range locateExtraErrors(extra, out, progs) {
+			off[k] = v
+		}
 		if len(off) == 0 {
 			bisect()
 		} else {
@@ -365,6 +403,41 @@ func locateGoErrors(genPath, out string, progs []Prog) map[int]bool {
 					off[i] = true
 					break
 				}
+			}
+		}
+	}
+	return off
+}
+
+var extraPos = regexp.MustCompile(`(?m)^\./([A-Za-z0-9_/]+\.go):(\d+):\d+: (.*)$`)
+var funcHead = regexp.MustCompile(`^func ([A-Za-z0-9_]+)`)
+
+// locateExtraErrors maps compiler errors in the extra Go files (clients) to
+// programs: the enclosing top-level func of the error line is looked up in the
+// programs' definitions.
+func locateExtraErrors(extra map[string]string, out string, progs []Prog) map[int]bool {
+	off := map[int]bool{}
+	for _, m := range extraPos.FindAllStringSubmatch(out, -1) {
+		src, ok := extra[m[1]]
+		if !ok {
+			continue
+		}
+		ln, _ := strconv.Atoi(m[2])
+		lines := strings.Split(src, "\n")
+		name := ""
+		for i := ln - 1; i >= 0 && i < len(lines); i-- {
+			if h := funcHead.FindStringSubmatch(lines[i]); h != nil {
+				name = h[1]
+				break
+			}
+		}
+		if name == "" {
+			continue
+		}
+		for i, pr := range progs {
+			if containsWord(pr.Defs, name) {
+				off[i] = true
+				break
 			}
 		}
 	}
